@@ -8,7 +8,7 @@
    The remaining clauses of C01 (refusal instead of an exception; the slices replace-around and mark steps build)
    are evaluated per case by Corr.C01 on the implementation's observations. *)
 From Coq Require Import List NArith String.
-From PM Require Import Model.Data Model.Mark Model.Tree Model.Step Proofs.ReplaceValid Proofs.SliceSides Proofs.NodeStepValid.
+From PM Require Import Model.Data Model.Mark Model.Tree Model.Step Proofs.ReplaceValid Proofs.SliceSides Proofs.NodeStepValid Proofs.ReplaceSafe Proofs.StepSafe.
 Import ListNotations.
 
 (* [check] is the model of Node.check; C07_check_iff (Properties/C07.v) relates it to the token-level
@@ -67,6 +67,25 @@ Theorem C01_doc_attr_step_valid : forall s attr value doc d',
   check s doc = true -> apply s (SDocAttr attr value) doc = ROk d' -> check s d' = true.
 Proof. exact doc_attr_step_valid. Qed.
 Print Assumptions C01_doc_attr_step_valid.
+
+(* ------------------------------------------------------------------ never an internal error
+   The model returns [RErr ErrInternal] exactly where the Python code would raise IndexError / AttributeError /
+   AssertionError / RecursionError (a path read beyond its depth, a missing child, exhausted recursion).  For EVERY step
+   of the eight types - whatever its positions, slice, open depths, insert offset, mark or attribute, i.e. anything a
+   peer can send as JSON - applied to an element document whose leaf-typed nodes have no children: the result is a
+   document, a failed result, or an exception of the two allowed classes (ReplaceError is turned into a failed result
+   by the steps; ValueError: position out of range, a surrogate pair cut in two, a missing required attribute).
+   No hypothesis on validity, positions or the slice.  (The theorem is about the code AFTER three repairs it led to:
+   known_findings C01-overopen-slice-indexerror, C01-reversed-range-indexerror, C01-empty-open-slice-indexerror.) *)
+Theorem C01_step_error_class : forall s st doc e,
+  is_elem doc -> leaves_empty s doc -> apply s st doc = RErr e -> e = ErrReplace \/ e = ErrValue.
+Proof. intros s st doc e He Hl H. exact (apply_error_class s st doc He Hl e H). Qed.
+Print Assumptions C01_step_error_class.
+
+Corollary C01_no_internal_error : forall s st doc,
+  is_elem doc -> leaves_empty s doc -> apply s st doc <> RErr ErrInternal.
+Proof. exact apply_no_internal_error. Qed.
+Print Assumptions C01_no_internal_error.
 
 (* the hypotheses are satisfiable by a slice open on both sides to different depths *)
 Local Open Scope string_scope.
